@@ -40,6 +40,17 @@ CHECKS["C09"] = dict(engine="CRASHFS", category="fault_enumeration", technique="
   text="For histories of 1-3 saves over four snapshot sizes the real Save runs on a real directory through a recording os shim; at every completed call and at cut points inside every write the directory is inspected as a restarted process would see it: data.json absent (only before the first save) or loadable and equal to a snapshot it may hold then. Each call of a further save is made to fail once. Two concurrent savers are run under every interleaving of their calls.", design="3/C09",
   note="Fault model: process death after any completed call or write prefix; no power-loss reordering. store/store.go is rebuilt with os -> vos by the instrumenter from the current tree.")
 
+CHECKS["C10"] = dict(engine="RMC", category="model_checking", technique=X2T+"; restart oracle at every state on a real JSON store; exhaustive codec sweep over JSON values of depth <= 2",
+  text="At every distinct state of the history BFS (conc 1/2 x plain / replace+delay x one task / chain) the live runner is saved to a real JsonDataStore in a temp directory and a second runner is started from it; reports read through the real server handlers before and after must satisfy the statement (terminal jobs, no ghost capacity, same job set, identical finished jobs). All JSON values of nesting depth <= 2 over 16 atoms go through the real schedule handler, a save and a restart.", design="3/C10", note=RMC_NOTE)
+CHECKS["C12"] = dict(engine="RMC", category="model_checking", technique=X2T+"; retention oracle and log-directory comparison at every save event; real FileOutputStore",
+  text="Histories of schedule / outcome / cancel / clock advance / pipeline removal / save events over two pipelines for retention_count {0,1,2} x retention_period {0,1h}, also starting from jobs loaded from an earlier run; after every save a reference retention model and the agreement of API, store and log directories (hashes of kept logs) are checked.", design="3/C12", note=RMC_NOTE)
+CHECKS["C14"] = dict(engine="HTTPX", category="model_checking", technique="exhaustive enumeration of a finite input product (routes walked from the router x methods x credential classes x transports x profiling x request history) against the real handler, state-unchanged oracle",
+  text="Every route and method registered in the real chi router (walked, so new routes are included) is requested with 14 classes of invalid credentials over header, cookie and both, with profiling on and off, on a fresh server and after a legitimate request via header or cookie: status must be 401, the body must reveal nothing, and the state of a live runner with a running job must be unchanged; unregistered method/slash variants must neither succeed nor act; a valid token is the vacuity control.", design="3/C14",
+  note="Exhaustive over the stated finite product; served in-process through the http.Handler; JWT library clock not controlled (expiry classes use +-1h).")
+CHECKS["C17"] = dict(engine="DEFX", category="model_checking", technique="bounded exhaustive input enumeration: validation grid rendered to YAML and loaded under every map iteration order, file-set layouts, and all ordered pairs of per-kind value grids for every struct field discovered by reflection, against a reference validator / reference equality",
+  text="1024 definitions (concurrency x queue_limit x start_delay x strategy x depends_on) are rendered to YAML and loaded under every permutation of map iteration order: load fails iff the reference validator says invalid, otherwise the result equals what was written (default concurrency 1); file layouts and duplicate names; Equals is compared with reference equality for every field (by reflection; unknown kinds abort) over all ordered pairs of a value grid.", design="3/C17",
+  note="Bounded by the value grids. Map iteration order inside the definition package is owned through the instrumenter's range-over-map rewrite.")
+
 PLANNED = {}
 props = [json.loads(l) for l in open('/verif/properties.jsonl')]
 hooks = subprocess.run(['git','-C','/repo','log','--format=%h %s','--grep=^verif hook'],capture_output=True,text=True).stdout.strip().splitlines()
@@ -54,6 +65,8 @@ m = {
    "add_only": True,
  },
  "engines": [
+   {"name": "HTTPX", "path": "engine/httpx.go", "serves_properties": ["C14"], "kind_free_text": "finite-product enumeration against the real HTTP handler"},
+   {"name": "DEFX", "path": "engine/defx.go", "serves_properties": ["C17"], "kind_free_text": "bounded exhaustive inputs for loader / validator / Equals"},
    {"name": "CRASHFS", "path": "engine/crashfs.go", "serves_properties": ["C09"], "kind_free_text": "crash-point / fault enumeration over shim/vos"},
    {"name": "RMC", "path": "engine/", "serves_properties": sorted(k for k,v in CHECKS.items() if v["engine"]=="RMC"),
     "kind_free_text": "model checker for the real runner: AST instrumenter + cooperative scheduler shims (shim/), stateless DFS over schedules (X1) and explicit-state BFS over event histories (X2), log monitors"},
